@@ -336,6 +336,153 @@ fn oracle(c: &CaseIn, mt: &Mat, r: &Result<(Vec<usize>, bool), String>) -> Verdi
 }
 
 // ------------------------------------------------------------------------------------------ generator
+/// messages for the lifecycle API so that the first lifecycle starts at `tstart`: normal traffic (the buffering delay
+/// shrinks and grows: the start estimate moves earlier), reception gaps > 10 s with continuing timestamps (resume, also
+/// chains of them), messages that pull the start of a resumed lifecycle to around / exactly to / before the start
+/// recorded for the lifecycle it resumes, control requests, messages without timestamp, timestamps that restart
+fn gen_api(rng: &mut Rng, ecu: u8, tstart: u64) -> Build {
+    let ts0: u64 = match rng.below(6) {
+        0 => 0,
+        1 => 1,
+        2 => rng.below(1000),
+        3 => 100_000 + rng.below(1_000_000),
+        _ => rng.below(300_000),
+    };
+    let mut rt = tstart + ts0 * 100;
+    let mut ts = ts0;
+    let mut ops: Vec<ApiOp> = vec![(rt, ts as u32, if rng.chance(1, 15) { 1 } else { 0 })];
+    let n = rng.below(8);
+    for _ in 0..n {
+        match rng.below(11) {
+            0 | 1 => {
+                let d = rng.below(2_000_000);
+                rt += d;
+                ts += d / 100;
+                if rng.chance(1, 2) {
+                    ts = ts.saturating_sub(rng.below(5000));
+                }
+                ops.push((rt, ts as u32, 0));
+            }
+            2 => {
+                rt += rng.below(1_000_000);
+                ts += rng.below(300_000);
+                ops.push((rt, ts as u32, 0));
+            }
+            3 | 4 | 5 => {
+                let g = rng.range(10_500_000, 60_000_000);
+                let t = rng.below(g - 10_400_000);
+                rt += g;
+                ts += t / 100;
+                ops.push((rt, ts as u32, 0));
+            }
+            6 | 7 => {
+                let chain = api_chain(ecu, &ops);
+                if chain.len() >= 2 {
+                    let origin = chain[chain.len() - 2].start_time;
+                    let target = match rng.below(8) {
+                        0 | 1 => origin,
+                        2 => origin.saturating_sub(100),
+                        3 => origin + 100,
+                        4 => origin.saturating_sub(1),
+                        5 => origin + 1,
+                        6 => origin.saturating_sub(rng.below(9_000_000)),
+                        _ => origin + rng.below(5_000_000),
+                    };
+                    let mut nrt = rt + rng.below(1_500_000);
+                    if nrt >= target {
+                        nrt += (100 - (nrt - target) % 100) % 100;
+                        let nts = (nrt - target) / 100;
+                        if nts <= u32::MAX as u64 {
+                            rt = nrt;
+                            ts = nts;
+                            ops.push((rt, ts as u32, 0));
+                        }
+                    }
+                }
+            }
+            8 => ops.push((rt + rng.below(1_000_000), rng.below(1 << 32) as u32, 1)),
+            9 => {
+                rt += rng.below(1_000_000);
+                ops.push((rt, 0, 2));
+            }
+            _ => {
+                rt += rng.range(1_000_000, 40_000_000);
+                ts = rng.below(50_000);
+                ops.push((rt, ts as u32, 0));
+            }
+        }
+    }
+    let chain = api_chain(ecu, &ops);
+    let k = if rng.chance(2, 3) { chain.len() - 1 } else { rng.below(chain.len() as u64) as usize };
+    // move everything so that the chosen lifecycle (not the first one) starts around tstart
+    let s = chain[k].start_time;
+    if s > tstart {
+        let d = s - tstart;
+        if ops.iter().all(|o| o.0 >= d + o.1 as u64 * 100) {
+            for o in ops.iter_mut() {
+                o.0 -= d;
+            }
+        }
+    } else if s < tstart {
+        let d = tstart - s;
+        for o in ops.iter_mut() {
+            o.0 += d;
+        }
+    }
+    Build::Api { ecu, ops, k: k as u8 }
+}
+
+/// a table entry with (about) the start time `tstart`: every kind of `Lifecycle` value the table can hold
+fn gen_build(rng: &mut Rng, ecu: u8, tstart: u64, table: &[(u32, u64)], wild: bool) -> Build {
+    let huge = tstart > 1 << 62;
+    match rng.below(20) {
+        0..=5 => Build::Plain(tstart),
+        6 | 7 => Build::Direct { start: tstart, ecu, resume: None },
+        8..=13 => {
+            // a resumed lifecycle: which lifecycle it resumes (in the table or not) and the start time recorded for that one
+            let existing = if !table.is_empty() && rng.chance(3, 4) { Some(*rng.pick(table)) } else { None };
+            let oid = match existing {
+                Some(x) => x.0,
+                None => 1000 + rng.below(5) as u32,
+            };
+            let ostart = match rng.below(11) {
+                0 => tstart,
+                1 => tstart.saturating_add(1),
+                2 => tstart.saturating_sub(1),
+                3 => tstart.saturating_add(100),
+                4 => tstart.saturating_sub(100),
+                5 | 6 => tstart.saturating_add(rng.below(30 * US_PER_SEC)), // this start was moved to before the origin's
+                7 => tstart.saturating_sub(rng.below(30 * US_PER_SEC)),     // the usual: resumed after the origin
+                8 => existing.map(|x| x.1).unwrap_or(0),                    // the origin's start as the table has it
+                9 => {
+                    if wild {
+                        u64::MAX - rng.below(3)
+                    } else {
+                        0
+                    }
+                }
+                _ => tstart.saturating_add(rng.below(2_000_000)),
+            };
+            Build::Direct { start: tstart, ecu, resume: Some((oid, ostart)) }
+        }
+        _ if huge => Build::Plain(tstart),
+        _ => gen_api(rng, ecu, tstart),
+    }
+}
+
+/// the same entry with another start time (table changes while sorting); what it resumes is kept
+fn with_start(e: &Entry, start: u64) -> Entry {
+    match &e.1 {
+        Build::Plain(_) => (e.0, Build::Plain(start)),
+        Build::Direct { ecu, resume, .. } => (e.0, Build::Direct { start, ecu: *ecu, resume: *resume }),
+        Build::Api { ecu, .. } => {
+            let v = view_of(&materialize(e));
+            let resume = if v.is_resume { Some((0, if v.resume_start != v.start { v.resume_start - 1 } else { v.start - v.suspend })) } else { None };
+            (e.0, Build::Direct { start, ecu: *ecu, resume })
+        }
+    }
+}
+
 fn gen_case(rng: &mut Rng, big: bool) -> CaseIn {
     let w: u8 = match rng.below(20) {
         0 => 0,
@@ -397,27 +544,34 @@ fn gen_case(rng: &mut Rng, big: bool) -> CaseIn {
     };
     // lifecycles: per ecu a current lifecycle (id, true start); table start may deviate or be missing
     let mut next_id: u32 = 1 + rng.below(3) as u32;
+    // `table`: (id, start time of the entry), `entries`: how the entry is made (parallel)
     let mut table: Vec<(u32, u64)> = vec![];
+    let mut entries: Vec<Entry> = vec![];
     let mut cur: Vec<(u32, u64)> = vec![];
     let mut known_lcs: Vec<Vec<(u32, u64)>> = vec![vec![]; necu];
-    let new_lc = |rng: &mut Rng, now: u64, next_id: &mut u32, table: &mut Vec<(u32, u64)>| -> (u32, u64) {
+    let new_lc = |rng: &mut Rng, now: u64, ecu: u8, next_id: &mut u32, table: &mut Vec<(u32, u64)>, entries: &mut Vec<Entry>| -> (u32, u64) {
         let id = if rng.chance(1, 12) { 0 } else { *next_id };
         *next_id += 1 + rng.below(2) as u32;
         let start = now.saturating_sub(if rng.chance(1, 3) { rng.below(3 * US_PER_SEC) } else { rng.below(100 * US_PER_SEC) });
-        match rng.below(12) {
-            0 => {} // id missing in the table: start 0
-            1 => table.push((id, start.saturating_sub(rng.below(2_000_000)))), // table start earlier than the truth
-            2 => table.push((id, start + rng.below(2_000_000))),               // later than the truth
-            3 if style == 2 => table.push((id, u64::MAX - rng.below(1000))),     // marker value of merged lifecycles
-            _ => table.push((id, start)),
-        }
-        if table.iter().filter(|x| x.0 == id).count() > 1 {
-            table.pop();
+        let tstart = match rng.below(12) {
+            0 => None,                                                  // id missing in the table: start 0
+            1 => Some(start.saturating_sub(rng.below(2_000_000))),      // table start earlier than the truth
+            2 => Some(start + rng.below(2_000_000)),                    // later than the truth
+            3 if style == 2 => Some(u64::MAX - rng.below(1000)),        // marker value of merged lifecycles
+            _ => Some(start),
+        };
+        if let Some(ts) = tstart {
+            if !table.iter().any(|x| x.0 == id) {
+                let e: Entry = (id, gen_build(rng, ecu, ts, table, style == 2));
+                let actual = view_of(&materialize(&e)).start;
+                table.push((id, actual));
+                entries.push(e);
+            }
         }
         (id, start)
     };
     for e in 0..necu {
-        let lc = new_lc(rng, base, &mut next_id, &mut table);
+        let lc = new_lc(rng, base, e as u8 + 1, &mut next_id, &mut table, &mut entries);
         known_lcs[e].push(lc);
         cur.push(lc);
     }
@@ -453,7 +607,7 @@ fn gen_case(rng: &mut Rng, big: bool) -> CaseIn {
         let e = rng.below(necu as u64) as usize;
         // lifecycle change / an old lifecycle's message showing up again
         if rng.chance(1, 15) {
-            let lc = new_lc(rng, rt, &mut next_id, &mut table);
+            let lc = new_lc(rng, rt, e as u8 + 1, &mut next_id, &mut table, &mut entries);
             known_lcs[e].push(lc);
             cur[e] = lc;
         }
@@ -516,13 +670,13 @@ fn gen_case(rng: &mut Rng, big: bool) -> CaseIn {
         msgs[k].1 = u64::MAX - rng.below(2_000_000);
     }
     // table changes while sorting (never for a destroyed map)
-    let mut changes: Vec<(usize, Option<Vec<(u32, u64)>>)> = vec![];
+    let mut changes: Vec<(usize, Option<Vec<Entry>>)> = vec![];
     if table_mode != 2 && !msgs.is_empty() && rng.chance(1, 4) {
         let k = 1 + rng.below(3);
         let mut ats: Vec<usize> = (0..k).map(|_| 1 + rng.below(msgs.len() as u64) as usize).collect();
         ats.sort();
         ats.dedup();
-        let mut cur = table.clone();
+        let mut cur: Vec<(Entry, u64)> = entries.iter().cloned().zip(table.iter().map(|x| x.1)).collect();
         for (j, at) in ats.iter().enumerate() {
             if j + 1 == ats.len() && rng.chance(1, 8) {
                 changes.push((*at, None));
@@ -530,8 +684,14 @@ fn gen_case(rng: &mut Rng, big: bool) -> CaseIn {
             }
             for x in cur.iter_mut() {
                 match rng.below(4) {
-                    0 => x.1 = x.1.saturating_sub(rng.below(2_000_000)),
-                    1 => x.1 = x.1.saturating_add(rng.below(2_000_000)),
+                    0 => {
+                        x.1 = x.1.saturating_sub(rng.below(2_000_000));
+                        x.0 = with_start(&x.0, x.1);
+                    }
+                    1 => {
+                        x.1 = x.1.saturating_add(rng.below(2_000_000));
+                        x.0 = with_start(&x.0, x.1);
+                    }
                     _ => {}
                 }
             }
@@ -541,19 +701,52 @@ fn gen_case(rng: &mut Rng, big: bool) -> CaseIn {
             }
             if rng.chance(1, 3) {
                 let id = rng.below(next_id as u64 + 1) as u32;
-                if !cur.iter().any(|x| x.0 == id) {
-                    cur.push((id, base.saturating_sub(rng.below(5_000_000))));
+                if !cur.iter().any(|x| x.0 .0 == id) {
+                    let st = base.saturating_sub(rng.below(5_000_000));
+                    let known: Vec<(u32, u64)> = cur.iter().map(|x| (x.0 .0, x.1)).collect();
+                    let ecu = 1 + rng.below(necu as u64) as u8;
+                    let e: Entry = (id, gen_build(rng, ecu, st, &known, false));
+                    let actual = view_of(&materialize(&e)).start;
+                    cur.push((e, actual));
                 }
             }
-            changes.push((*at, Some(cur.clone())));
+            changes.push((*at, Some(cur.iter().map(|x| x.0.clone()).collect())));
         }
     }
+    let table = entries;
     CaseIn { w, mind, table_mode, table, changes, msgs }
 }
 
 // ------------------------------------------------------------------------------------------ recording
+fn entry_json(e: &Entry) -> Value {
+    match &e.1 {
+        Build::Plain(s) => json!([e.0, s]),
+        Build::Direct { start, ecu, resume } => json!([e.0, {"direct": {"start": start, "ecu": ecu, "resume": resume.map(|r| vec![r.0 as u64, r.1])}}]),
+        Build::Api { ecu, ops, k } => json!([e.0, {"api": {"ecu": ecu, "k": k, "ops": ops.iter().map(|o| json!([o.0, o.1, o.2])).collect::<Vec<_>>()}}]),
+    }
+}
+fn entry_from_json(v: &Value) -> Entry {
+    let id = v[0].as_u64().unwrap() as u32;
+    if let Some(s) = v[1].as_u64() {
+        return (id, Build::Plain(s));
+    }
+    if let Some(d) = v[1].get("direct") {
+        let resume = d["resume"].as_array().map(|a| (a[0].as_u64().unwrap() as u32, a[1].as_u64().unwrap()));
+        return (id, Build::Direct { start: d["start"].as_u64().unwrap(), ecu: d["ecu"].as_u64().unwrap() as u8, resume });
+    }
+    let a = &v[1]["api"];
+    let ops = a["ops"].as_array().unwrap().iter().map(|o| (o[0].as_u64().unwrap(), o[1].as_u64().unwrap() as u32, o[2].as_u64().unwrap() as u8)).collect();
+    (id, Build::Api { ecu: a["ecu"].as_u64().unwrap() as u8, ops, k: a["k"].as_u64().unwrap() as u8 })
+}
+fn table_json(t: &[Entry]) -> Value {
+    Value::Array(t.iter().map(entry_json).collect())
+}
+fn table_from_json(v: &Value) -> Vec<Entry> {
+    v.as_array().unwrap().iter().map(entry_from_json).collect()
+}
 fn case_json(c: &CaseIn) -> Value {
-    json!({"w": c.w, "mind": c.mind, "table_mode": c.table_mode, "table": c.table, "changes": c.changes,
+    json!({"w": c.w, "mind": c.mind, "table_mode": c.table_mode, "table": table_json(&c.table),
+           "changes": c.changes.iter().map(|(at, t)| json!([at, t.as_ref().map(|t| table_json(t))])).collect::<Vec<_>>(),
            "msgs": c.msgs.iter().map(|m| json!([m.0, m.1, m.2, m.3, m.4, m.5])).collect::<Vec<_>>()})
 }
 fn case_from_json(v: &Value) -> CaseIn {
@@ -561,9 +754,9 @@ fn case_from_json(v: &Value) -> CaseIn {
         w: v["w"].as_u64().unwrap() as u8,
         mind: v["mind"].as_u64().unwrap(),
         table_mode: v["table_mode"].as_u64().unwrap() as u8,
-        table: v["table"].as_array().unwrap().iter().map(|x| (x[0].as_u64().unwrap() as u32, x[1].as_u64().unwrap())).collect(),
+        table: table_from_json(&v["table"]),
         changes: match v.get("changes") {
-            Some(ch) if ch.is_array() => serde_json::from_value(ch.clone()).unwrap(),
+            Some(ch) if ch.is_array() => ch.as_array().unwrap().iter().map(|x| (x[0].as_u64().unwrap() as usize, if x[1].is_null() { None } else { Some(table_from_json(&x[1])) })).collect(),
             _ => vec![],
         },
         msgs: v["msgs"]
@@ -578,15 +771,31 @@ fn case_from_json(v: &Value) -> CaseIn {
 }
 
 fn record(sink: &mut Sink, c: CaseIn, origin: &str) {
+    // the table entries as values (what the oracle and the Coq side are told about the input)
+    let mt = {
+        let c2 = c.clone();
+        match catch(move || mat_of(&c2)) {
+            Ok(m) => m,
+            Err(e) => {
+                eprintln!("c10: table of a case cannot be built ({}), case skipped", e);
+                return;
+            }
+        }
+    };
     let r = run_impl(&c);
-    let verdict = oracle(&c, &r);
+    let verdict = oracle(&c, &mt, &r);
     let obs = match &r {
         Ok((tags, intact)) => O::T(vec![O::L(0), O::T(tags.iter().map(|t| O::n(*t as u64)).collect()), O::b(*intact)]),
         Err(_) => O::T(vec![O::L(1)]),
     };
-    let ctable = |t: &Vec<(u32, u64)>| format!("(Some {})", clist(&t.iter().map(|(i, s)| format!("({}, {})", i, s)).collect::<Vec<_>>()));
-    let mut versions = vec![format!("(0, {})", if c.table_mode == 0 { ctable(&c.table) } else { "None".to_string() })];
-    for (at, t) in c.changes.iter() {
+    let ctable = |t: &MatTable| {
+        format!(
+            "(Some {})",
+            clist(&t.iter().map(|(i, _, v)| format!("({}, ({}, {}, {}, {}, {}, {}, {}))", i, v.start, v.is_resume as u8, v.resume_start, v.resume_time, v.end, v.suspend, v.nr)).collect::<Vec<_>>())
+        )
+    };
+    let mut versions = vec![format!("(0, {})", if c.table_mode == 0 { ctable(&mt.table) } else { "None".to_string() })];
+    for (at, t) in mt.changes.iter() {
         versions.push(format!("({}, {})", at, match t {
             Some(t) => ctable(t),
             None => "None".to_string(),
@@ -595,7 +804,7 @@ fn record(sink: &mut Sink, c: CaseIn, origin: &str) {
     let tbl = clist(&versions);
     let msgs = clist(&c.msgs.iter().map(|m| format!("({}, {}, {}, {}, {}, {})", m.0, m.1, m.2, m.3, m.4, m.5)).collect::<Vec<_>>());
     let input_coq = format!("({}, {}, {}, {})", c.w, c.mind, tbl, msgs);
-    let hyp = hypothesis_holds(&c);
+    let hyp = hypothesis_holds(&c, &mt);
     let mut tags = vec![origin.to_string(), format!("w{}", if c.w > 6 { 255 } else { c.w }), format!("table_mode{}", c.table_mode)];
     if hyp {
         tags.push("bound_hypothesis_holds".into());
@@ -619,6 +828,63 @@ fn record(sink: &mut Sink, c: CaseIn, origin: &str) {
     if c.table_mode == 0 && c.msgs.iter().any(|m| !c.table.iter().any(|t| t.0 == m.5)) {
         tags.push("id_missing_in_table".into());
     }
+    // kinds of table entries, and whether reading an entry differently would change a sort key of this stream
+    {
+        let all: Vec<&(u32, u64, View)> = mt.table.iter().chain(mt.changes.iter().filter_map(|x| x.1.as_ref()).flatten()).collect();
+        let mut kinds: Vec<&str> = vec![];
+        for e in c.table.iter().chain(c.changes.iter().filter_map(|x| x.1.as_ref()).flatten()) {
+            kinds.push(match &e.1 {
+                Build::Plain(_) => "entry_plain",
+                Build::Direct { .. } => "entry_constructed",
+                Build::Api { .. } => "entry_by_lifecycle_api",
+            });
+            if let Build::Api { ecu, ops, .. } = &e.1 {
+                if !ops.is_empty() && api_chain(*ecu, ops).len() > 2 {
+                    kinds.push("entry_api_chain_of_3_or_more");
+                }
+            }
+        }
+        kinds.sort();
+        kinds.dedup();
+        tags.extend(kinds.iter().map(|k| k.to_string()));
+        if all.iter().any(|x| x.2.is_resume) {
+            tags.push("entry_resumed".into());
+        }
+        if all.iter().any(|x| x.2.is_resume && x.2.resume_start == x.2.start) {
+            tags.push("entry_resumed_start_after_origin".into());
+        }
+        if all.iter().any(|x| x.2.is_resume && x.2.resume_start != x.2.start) {
+            tags.push("entry_resumed_start_le_origin".into());
+        }
+        if all.iter().any(|x| x.2.is_resume && x.2.resume_start == x.2.start.wrapping_add(1)) {
+            tags.push("entry_resumed_start_eq_origin".into());
+        }
+        if mt.table.iter().any(|x| x.2.is_resume && mt.table.iter().any(|y| y.2.is_resume && y.0 != x.0 && (x.2.resume_start == y.1 + 1 || x.1.checked_sub(x.2.suspend) == Some(y.1)))) {
+            tags.push("entry_resume_of_a_resumed".into());
+        }
+        if all.iter().any(|x| x.2.end != x.2.start && x.2.end != 0) {
+            tags.push("entry_with_timestamps".into());
+        }
+        if all.iter().any(|x| x.1 == 0) {
+            tags.push("entry_start_0".into());
+        }
+        let differs = |key: &dyn Fn(&(u32, u64, View)) -> u64| c.msgs.iter().any(|m| calc_with(&c, &mt, m, key) != calc_of(&c, &mt, m));
+        if differs(&|x| x.2.resume_start) {
+            tags.push("key_would_differ_by_resume_start_time".into());
+            if hyp {
+                tags.push("key_would_differ_by_resume_start_time_under_hypothesis".into());
+            }
+        }
+        if differs(&|x| x.2.resume_time) {
+            tags.push("key_would_differ_by_resume_time".into());
+        }
+        if differs(&|x| x.2.end) {
+            tags.push("key_would_differ_by_end_time".into());
+        }
+        if differs(&|x| x.1.saturating_sub(x.2.suspend)) {
+            tags.push("key_would_differ_by_origin_start".into());
+        }
+    }
     match &r {
         Ok((t, _)) => {
             if t.windows(2).any(|p| p[0] > p[1]) {
@@ -626,14 +892,14 @@ fn record(sink: &mut Sink, c: CaseIn, origin: &str) {
             }
             if !hyp {
                 // is the output ordered although the hypothesis does not hold?
-                let sorted = t.windows(2).all(|p| match (calc_of(&c, &c.msgs[p[0]]), calc_of(&c, &c.msgs[p[1]])) {
+                let sorted = t.windows(2).all(|p| match (calc_of(&c, &mt, &c.msgs[p[0]]), calc_of(&c, &mt, &c.msgs[p[1]])) {
                     (Some(a), Some(b)) => a <= b,
                     _ => true,
                 });
                 tags.push(if sorted { "outside_bound_sorted".into() } else { "outside_bound_unsorted".into() });
             }
             // equal (calculated time, index): did the real heap pop them against the input order?
-            if t.windows(2).any(|p| p[0] > p[1] && c.msgs[p[0]].0 == c.msgs[p[1]].0 && calc_of(&c, &c.msgs[p[0]]) == calc_of(&c, &c.msgs[p[1]])) {
+            if t.windows(2).any(|p| p[0] > p[1] && c.msgs[p[0]].0 == c.msgs[p[1]].0 && calc_of(&c, &mt, &c.msgs[p[0]]) == calc_of(&c, &mt, &c.msgs[p[1]])) {
                 tags.push("tie_popped_against_input_order".into());
             }
             let span = c.msgs.iter().map(|m| m.1).max().unwrap_or(0) - c.msgs.iter().map(|m| m.1).min().unwrap_or(0);
@@ -648,7 +914,7 @@ fn record(sink: &mut Sink, c: CaseIn, origin: &str) {
         }
     }
     {
-        let mut keys: Vec<(u64, u32)> = c.msgs.iter().filter_map(|m| calc_of(&c, m).map(|k| (k, m.0))).collect();
+        let mut keys: Vec<(u64, u32)> = c.msgs.iter().filter_map(|m| calc_of(&c, &mt, m).map(|k| (k, m.0))).collect();
         keys.sort();
         if keys.windows(2).any(|p| p[0] == p[1]) {
             tags.push("equal_keys".into());
@@ -661,9 +927,10 @@ fn record(sink: &mut Sink, c: CaseIn, origin: &str) {
 }
 
 fn corpus() -> Vec<CaseIn> {
-    let plain = |w: u8, mind: u64, table: Vec<(u32, u64)>, msgs: Vec<RawMsg>| CaseIn { w, mind, table_mode: 0, table, changes: vec![], msgs };
+    let pl = |t: Vec<(u32, u64)>| -> Vec<Entry> { t.into_iter().map(|(i, s)| (i, Build::Plain(s))).collect() };
+    let plain = |w: u8, mind: u64, table: Vec<(u32, u64)>, msgs: Vec<RawMsg>| CaseIn { w, mind, table_mode: 0, table: pl(table), changes: vec![], msgs };
     let r: u64 = 1_640_995_200_000_000;
-    vec![
+    let mut v = vec![
         // the three repo tests (basic2, basic3 shapes)
         CaseIn { w: 3, mind: 2_000_000, table_mode: 1, table: vec![], changes: vec![], msgs: vec![(0, r + 1_000_000, 1, 10_000, 0, 0), (1, r + 1_200_000, 1, 11_000, 0, 0)] },
         plain(3, 2_000_000, vec![(1, r - 110_000)], vec![(0, r, 1, 1_100, 0, 1), (1, r + 1_000, 1, 1_000, 0, 1)]),
@@ -705,15 +972,15 @@ fn corpus() -> Vec<CaseIn> {
         // minimum delay close to u64::MAX: min_delay + 1000 s overflows
         plain(3, u64::MAX - 5, vec![], vec![(0, 1_000_000, 1, 1, 0, 1)]),
         // destroyed map
-        CaseIn { w: 3, mind: 0, table_mode: 2, table: vec![(1, 500)], changes: vec![], msgs: vec![(0, 1_000, 1, 3, 0, 1), (1, 1_001, 1, 2, 0, 1), (2, 3_000_000, 1, 1, 0, 1)] },
+        CaseIn { w: 3, mind: 0, table_mode: 2, table: pl(vec![(1, 500)]), changes: vec![], msgs: vec![(0, 1_000, 1, 3, 0, 1), (1, 1_001, 1, 2, 0, 1), (2, 3_000_000, 1, 1, 0, 1)] },
         // first-sight cache: lifecycle 1 is looked up before the table changes (start 0 stays cached although the table
         // moves it to 900 ms), lifecycle 2 is first seen after the change (start 500 ms); window 1, no minimum delay
         CaseIn {
             w: 1,
             mind: 0,
             table_mode: 0,
-            table: vec![(1, 0), (2, 0)],
-            changes: vec![(1, Some(vec![(1, 900_000), (2, 500_000)]))],
+            table: pl(vec![(1, 0), (2, 0)]),
+            changes: vec![(1, Some(pl(vec![(1, 900_000), (2, 500_000)])))],
             msgs: vec![(0, 1_000_000, 1, 10_000, 0, 1), (1, 2_500_000, 1, 25_000, 0, 1), (2, 4_000_000, 1, 30_000, 0, 1), (3, 4_000_001, 2, 30_000, 0, 2), (4, 9_000_000, 1, 90_000, 0, 1)],
         },
         // unpublished map that gets published by a refresh while sorting; later the writer goes away
@@ -721,11 +988,91 @@ fn corpus() -> Vec<CaseIn> {
             w: 2,
             mind: 1_000,
             table_mode: 1,
-            table: vec![(1, 100)],
-            changes: vec![(2, Some(vec![(1, 100), (2, 200)])), (3, None)],
+            table: pl(vec![(1, 100)]),
+            changes: vec![(2, Some(pl(vec![(1, 100), (2, 200)]))), (3, None)],
             msgs: vec![(0, 1_000_000, 1, 100, 0, 1), (1, 2_500_000, 2, 200, 0, 1), (2, 4_000_000, 1, 300, 0, 2), (3, 5_600_000, 2, 400, 0, 3), (4, 7_000_000, 1, 500, 0, 2), (5, 9_000_000, 2, 600, 0, 3)],
         },
-    ]
+    ];
+    v.extend(resume_family());
+    v
+}
+
+/// a resumed lifecycle next to the lifecycle it resumes and a second ECU's lifecycle in parallel: the resumed one starts
+/// 9 s / 1 s / 100 us / 1 us before, exactly at, 1 us / 100 us / 15 s after the start recorded for its origin; entries made
+/// with the constructor and through the lifecycle API; the stream interleaves the three lifecycles and control requests
+/// within a 2 s bound (equal timestamps in origin and resumed lifecycle: ties when the starts coincide)
+fn resume_family() -> Vec<CaseIn> {
+    let r: u64 = 1_640_995_200_000_000;
+    let s = US_PER_SEC;
+    let mut v = vec![];
+    for (j, delta) in [-9_000_000i64, -1_000_000, -100, -1, 0, 1, 100, 15_000_000].iter().enumerate() {
+        for api in [false, true] {
+            let origin = r + 100 * s;
+            let bstart = r + 50 * s;
+            let rstart = (origin as i64 + delta) as u64;
+            let table: Vec<Entry> = if api {
+                let mut ops: Vec<ApiOp> = vec![(r + 110 * s, 100_000, 0), (r + 130 * s, 150_000, 0)];
+                if *delta != 15_000_000 {
+                    let rt = r + 131 * s + rstart % 100;
+                    ops.push((rt, ((rt - rstart) / 100) as u32, 0));
+                }
+                vec![(1, Build::Api { ecu: 1, ops: ops.clone(), k: 0 }), (2, Build::Api { ecu: 1, ops, k: 1 }), (3, Build::Api { ecu: 2, ops: vec![(bstart, 0, 0)], k: 0 })]
+            } else {
+                vec![
+                    (1, Build::Direct { start: origin, ecu: 1, resume: None }),
+                    (2, Build::Direct { start: rstart, ecu: 1, resume: Some((1, origin)) }),
+                    (3, Build::Direct { start: bstart, ecu: 2, resume: None }),
+                ]
+            };
+            let mut msgs: Vec<RawMsg> = vec![];
+            let mut push = |rt: u64, ecu: u8, lc: u32, start: u64, delay: u64, ext: u16| {
+                let idx = msgs.len() as u32;
+                msgs.push((idx, rt, ecu, ((rt - delay - start) / 100) as u32, ext, lc));
+            };
+            push(r + 112_300_000, 1, 1, origin, 300_000, 0);
+            for i in 0..8u64 {
+                push(r + 200_600_000 + i * s, 2, 3, bstart, 100_000, 0);
+                push(r + 201_500_000 + i * s, 1, 2, rstart, 1_500_000 - (i % 3) * 200_000, 0);
+                if i == 3 {
+                    push(r + 201_600_000 + i * s, 1, 2, rstart, 0, 1 + 0x16);
+                }
+            }
+            if *delta <= 1_000_000 {
+                // the origin lifecycle shows up again with the timestamps of the resumed one
+                let mut k = 2;
+                while k < msgs.len() {
+                    if msgs[k].5 == 2 && msgs[k].4 == 0 {
+                        let m = msgs[k];
+                        msgs.insert(k + 1, (0, m.1 + 50_000, 1, m.3, 0, 1));
+                        k += 1;
+                    }
+                    k += 3;
+                }
+                for (i, m) in msgs.iter_mut().enumerate() {
+                    m.0 = i as u32;
+                }
+            }
+            v.push(CaseIn { w: 1 + (j % 3) as u8, mind: 2 * s, table_mode: 0, table, changes: vec![], msgs });
+        }
+    }
+    // a chain: 3 resumes 2 resumes 1, every start at or before the start recorded for its origin; the origin of 4 is not in the table
+    let t0 = r + 100 * s;
+    let table: Vec<Entry> = vec![
+        (1, Build::Direct { start: t0, ecu: 1, resume: None }),
+        (2, Build::Direct { start: t0 - 3 * s, ecu: 1, resume: Some((1, t0)) }),
+        (3, Build::Direct { start: t0 - 3 * s, ecu: 1, resume: Some((2, t0 - 3 * s)) }),
+        (4, Build::Direct { start: t0 - 40 * s, ecu: 2, resume: Some((77, t0 + 5 * s)) }),
+    ];
+    let mut msgs: Vec<RawMsg> = vec![];
+    for i in 0..16u64 {
+        let lc = 1 + (i % 4) as u32;
+        let start = [t0, t0 - 3 * s, t0 - 3 * s, t0 - 40 * s][(i % 4) as usize];
+        let rt = r + 300 * s + i * 400_000;
+        let delay = [100_000u64, 1_900_000, 700_000, 1_200_000, 0][(i % 5) as usize];
+        msgs.push((i as u32, rt, if lc == 4 { 2 } else { 1 }, ((rt - delay - start) / 100) as u32, 0, lc));
+    }
+    v.push(CaseIn { w: 2, mind: 2 * s, table_mode: 0, table, changes: vec![], msgs });
+    v
 }
 
 fn main() {
